@@ -3,7 +3,8 @@
            ordinary_own_property_keys);  Part 2: OrderedMap/OrderedSet + cursors refine the [[MapData]] list;
    Part 3: frame property of the realm discipline (a model of the discipline, see design.d/C20.md). *)
 From Coq Require Import NArith Arith List Bool Permutation Sorted.
-From C20 Require Import Model_C20 Proofs_C20.
+From C20 Require Import Model_C20 Proofs_C20 Deep_Realm_C20 Deep_Caches_C20 Deep_Statics_C20.
+From Gen Require Import Statics_C20.
 Import ListNotations.
 
 (* ---------------------------------------------------------------- part 1 *)
@@ -176,3 +177,107 @@ Proof.
   - intros a [<-|[]]. simpl. auto.
   - intros a HA HB. destruct (RA a HA), (RB a HB); subst; discriminate.
 Qed.
+
+(* ---------------------------------------------------------------- deepening round: the realm mechanism *)
+(* Deep_Realm_C20.v transliterates vm.frame().realm, enter_realm/swap_realm, native_function_call/construct, function_call,
+   Script::parse/evaluate, create_realm.  After ANY entry (ordinary call, native call/construct, Context::eval, create_realm),
+   completed normally or abruptly, whatever the callee tree does (including natives that call enter_realm and never restore),
+   the current realm and the whole stack of frame realms are what they were before. *)
+Theorem realm_restored : forall a s, entry a = true ->
+  top (fst (run a s)) = top s /\ rest (fst (run a s)) = rest s.
+Proof. exact realm_restored_lemma. Qed.
+Check realm_restored : forall a s, entry a = true ->
+  top (fst (run a s)) = top s /\ rest (fst (run a s)) = rest s.
+Print Assumptions realm_restored.
+
+(* the host's view: any sequence of host entries leaves the host realm unchanged *)
+Theorem host_realm_unchanged : forall r n l, forallb entry l = true ->
+  top (fst (run_list l (init r n))) = r /\ rest (fst (run_list l (init r n))) = [].
+Proof. exact host_realm_unchanged_lemma. Qed.
+Check host_realm_unchanged : forall r n l, forallb entry l = true ->
+  top (fst (run_list l (init r n))) = r /\ rest (fst (run_list l (init r n))) = [].
+Print Assumptions host_realm_unchanged.
+
+(* intrinsics / global object / global bindings are read through the current realm: inside an ordinary function of realm rf
+   (resp. a native function of realm rn, a script started by Context::eval) after any balanced prefix that is realm rf
+   (resp. rn, the realm current at the eval) - whatever the caller's realm was *)
+Theorem global_resolution_in_own_realm :
+  (forall rf pre s s1, forallb entry pre = true -> run_list pre (push rf s) = (s1, false) ->
+     tr (fst (run AProbe s1)) = EProbe rf :: tr s1) /\
+  (forall rn pre s s1, forallb entry pre = true -> run_list pre (set_top rn s) = (s1, false) ->
+     tr (fst (run AProbe s1)) = EProbe rn :: tr s1) /\
+  (forall pre s s1, forallb entry pre = true -> run_list pre (push (top s) s) = (s1, false) ->
+     tr (fst (run AProbe s1)) = EProbe (top s) :: tr s1).
+Proof. exact global_resolution_lemma. Qed.
+Check global_resolution_in_own_realm :
+  (forall rf pre s s1, forallb entry pre = true -> run_list pre (push rf s) = (s1, false) ->
+     tr (fst (run AProbe s1)) = EProbe rf :: tr s1) /\
+  (forall rn pre s s1, forallb entry pre = true -> run_list pre (set_top rn s) = (s1, false) ->
+     tr (fst (run AProbe s1)) = EProbe rn :: tr s1) /\
+  (forall pre s s1, forallb entry pre = true -> run_list pre (push (top s) s) = (s1, false) ->
+     tr (fst (run AProbe s1)) = EProbe (top s) :: tr s1).
+Print Assumptions global_resolution_in_own_realm.
+
+(* everything an ordinary function and its callees observe and whether it completes abruptly is independent of the realm
+   that was current in the caller *)
+Theorem callee_independent_of_caller_realm : forall rf body s r',
+  tr (fst (run (ACallFn rf body) (set_top r' s))) = tr (fst (run (ACallFn rf body) s)) /\
+  snd (run (ACallFn rf body) (set_top r' s)) = snd (run (ACallFn rf body) s).
+Proof. exact callee_independent_of_caller_realm_lemma. Qed.
+Check callee_independent_of_caller_realm : forall rf body s r',
+  tr (fst (run (ACallFn rf body) (set_top r' s))) = tr (fst (run (ACallFn rf body) s)) /\
+  snd (run (ACallFn rf body) (set_top r' s)) = snd (run (ACallFn rf body) s).
+Print Assumptions callee_independent_of_caller_realm.
+
+(* ---------------------------------------------------------------- deepening round: process-/thread-wide state *)
+(* every thread_local!/static/lazy item found by tools/gen_c20.py in core/{engine,string,gc,interner,ast} is classified *)
+Theorem statics_all_classified : forallb (fun e => is_classified (snd e)) inventory = true.
+Proof. exact statics_all_classified_lemma. Qed.
+Check statics_all_classified : forallb (fun e => is_classified (snd e)) inventory = true.
+Print Assumptions statics_all_classified.
+
+(* the identity-issuing / caching items are exactly the five named in Deep_Statics_C20.caches_expected *)
+Theorem caches_pinned : caches = caches_expected.
+Proof. exact caches_pinned_lemma. Qed.
+Check caches_pinned : caches = caches_expected.
+Print Assumptions caches_pinned.
+
+(* fresh counters (symbol hash = identity/order of JsSymbol, code block ids, async evaluation order): every comparison between
+   the identifiers one context obtained is the comparison of their creation indices - for any start value and any interleaving *)
+Theorem counter_observations_history_independent : forall h1 n1 h2 n2 i j,
+  i < length (our_ids n1 h1) -> j < length (our_ids n1 h1) ->
+  i < length (our_ids n2 h2) -> j < length (our_ids n2 h2) ->
+  Nat.compare (nth i (our_ids n1 h1) 0) (nth j (our_ids n1 h1) 0) =
+  Nat.compare (nth i (our_ids n2 h2) 0) (nth j (our_ids n2 h2) 0).
+Proof. exact counter_history_independent_lemma. Qed.
+Check counter_observations_history_independent : forall h1 n1 h2 n2 i j,
+  i < length (our_ids n1 h1) -> j < length (our_ids n1 h1) ->
+  i < length (our_ids n2 h2) -> j < length (our_ids n2 h2) ->
+  Nat.compare (nth i (our_ids n1 h1) 0) (nth j (our_ids n1 h1) 0) =
+  Nat.compare (nth i (our_ids n2 h2) 0) (nth j (our_ids n2 h2) 0).
+Print Assumptions counter_observations_history_independent.
+
+(* content-keyed caches (static string table, weak shape-transition caches): hit, miss, eviction of any subset and insertions
+   by other contexts all answer what the uncached computation answers *)
+Theorem memo_answers_function_of_key : forall (V : Type) (f : N -> V) h c, consistent V f c -> crun V f c h = map (direct V f) h.
+Proof. exact memo_answers_lemma. Qed.
+Check memo_answers_function_of_key : forall (V : Type) (f : N -> V) h c, consistent V f c -> crun V f c h = map (direct V f) h.
+Print Assumptions memo_answers_function_of_key.
+
+(* Symbol.for: identities are equal exactly when the keys are, whoever else uses the registry or the counter; keyFor inverts *)
+Theorem registry_identity_is_key_identity : forall h s, rinv s ->
+  forall k1 i1 k2 i2, In (k1, i1) (snd (greg_run s h)) -> In (k2, i2) (snd (greg_run s h)) -> (i1 = i2 <-> k1 = k2).
+Proof. exact registry_identity_lemma. Qed.
+Check registry_identity_is_key_identity : forall h s, rinv s ->
+  forall k1 i1 k2 i2, In (k1, i1) (snd (greg_run s h)) -> In (k2, i2) (snd (greg_run s h)) -> (i1 = i2 <-> k1 = k2).
+Print Assumptions registry_identity_is_key_identity.
+
+Theorem registry_keyfor_inverts : forall h s, rinv s ->
+  forall k i, In (k, i) (snd (greg_run s h)) -> rkey i (fst (fst (greg_run s h))) = Some k.
+Proof. exact registry_keyfor_lemma. Qed.
+Check registry_keyfor_inverts : forall h s, rinv s ->
+  forall k i, In (k, i) (snd (greg_run s h)) -> rkey i (fst (fst (greg_run s h))) = Some k.
+Print Assumptions registry_keyfor_inverts.
+
+Example registry_hypothesis_satisfiable : rinv ([], 128).
+Proof. repeat split; simpl; constructor. Qed.
